@@ -12,6 +12,7 @@
  */
 
 #include "cppStructType.h"
+#include <set>
 #include "cppArrayType.h"
 #include "cppConstType.h"
 #include "cppTypedefType.h"
@@ -1358,6 +1359,13 @@ substitute_decl(CPPDeclaration::SubstDecl &subst,
  */
 void CPPStructType::
 output(std::ostream &out, int indent_level, CPPScope *scope, bool complete) const {
+  // A (malformed) class whose scope contains its own definition must not be
+  // written out from within itself, or we would never finish.
+  static std::set<const CPPStructType *> being_written;
+  if (complete && _ident != nullptr && being_written.count(this) != 0) {
+    complete = false;
+  }
+
   if (!complete && _ident != nullptr) {
     // If we have a name, use it.
     if (cppparser_output_class_keyword) {
@@ -1401,7 +1409,11 @@ output(std::ostream &out, int indent_level, CPPScope *scope, bool complete) cons
     }
 
     out << " {\n";
+    bool inserted = being_written.insert(this).second;
     _scope->write(out, indent_level + 2, _scope);
+    if (inserted) {
+      being_written.erase(this);
+    }
     indent(out, indent_level) << "}";
   }
 }
